@@ -72,9 +72,10 @@ def main():
         feats = re.search(r"--features[= ]\s*(\"[^\"]*\"|'[^']*'|\S+)", line)
         feats = feats.group(1).strip("\"'") if feats else ""
         allf = "--all-features" in line
+        nodef = "--no-default-features" in line
         os.makedirs(f"{wt}/{pkg}/examples", exist_ok=True)
         shutil.copy(f"{tmp}/demo.rs", f"{wt}/{pkg}/examples/{ex}.rs")
-        cmd = f"cargo run -q --offline -p {pkg} --example {ex}" + (f" --features '{feats}'" if feats else "") + (" --all-features" if allf else "")
+        cmd = f"cargo run -q --offline -p {pkg} --example {ex}" + (f" --features '{feats}'" if feats else "") + (" --all-features" if allf else "") + (" --no-default-features" if nodef else "")
         with_ = sh(cmd, cwd=wt, env=env, timeout=1800)
         sh(f"git apply -R {tmp}/patch.diff", cwd=wt)
         without = sh(cmd, cwd=wt, env=env, timeout=1800)
